@@ -144,13 +144,32 @@ func checkC17(rep *core.Report) {
 		}
 	}
 	fname := core.FuncName(F)
-	if len(envEv) != 1 || len(fileEv) != 1 {
-		r1.Undecided(fname+":events", F.Pos(), fmt.Sprintf("%d environment and %d file events in the function that parses flags; want exactly one of each there", len(envEv), len(fileEv)))
+	if len(envEv) == 0 || len(fileEv) == 0 {
+		r1.Undecided(fname+":events", F.Pos(), fmt.Sprintf("%d environment and %d file events in the function that parses flags; want at least one of each there", len(envEv), len(fileEv)))
 		return
 	}
+	afterParse := core.Walk{}.ReachInstrs(parse)
+	for _, file := range fileEv {
+		for _, env := range envEv {
+			r1.Check(core.InstrDominates(env, file), fname+":ENV<FILE", file.Pos(), "environment loader dominates the YAML load", "the YAML file is not applied after the environment on every path: a VFLOW_* variable could override the file (or the order is path-dependent)")
+		}
+		r1.Check(core.InstrDominates(file, parse) && !afterParse[file], fname+":FILE<PARSE", file.Pos(), "YAML load dominates flag.Parse and cannot run after it", "a configuration file is (or can be) applied after flag.Parse: the file would override the command line")
+	}
+	for _, env := range envEv {
+		r1.Check(core.InstrDominates(env, parse) && !afterParse[env], fname+":ENV<PARSE", env.Pos(), "environment loader dominates flag.Parse and cannot run after it", "the environment is (or can be) applied after flag.Parse: a VFLOW_* variable would override the command line")
+	}
+	// no store into an Options field after Parse within the loader (other than through flag itself)
 	env, file := envEv[0], fileEv[0]
-	r1.Check(core.InstrDominates(env, file), fname+":ENV<FILE", file.Pos(), "environment loader dominates the YAML load", "the YAML file is not applied after the environment on every path: a VFLOW_* variable could override the file (or the order is path-dependent)")
-	r1.Check(core.InstrDominates(file, parse), fname+":FILE<PARSE", parse.Pos(), "YAML load dominates flag.Parse", "flag.Parse can run before the configuration file is applied: the file would override the command line")
+	for _, e := range envEv {
+		if core.InstrDominates(env, e) && core.InstrDominates(e, parse) {
+			env = e // the last environment event before Parse
+		}
+	}
+	for _, f := range fileEv {
+		if core.InstrDominates(file, f) && core.InstrDominates(f, parse) {
+			file = f // the last file event before Parse
+		}
+	}
 	// defaults before F: the receiver passed to F derives directly from a constructor call
 	for _, cs := range cg.In[F] {
 		args := cs.Instr.Common().Args
